@@ -135,7 +135,12 @@ impl NameCompressor {
 
         // Repeatedly look up entries that could be used for compression.
         while !name.is_empty() {
-            match self.lookup_entry_for_revname(contents, name, parent) {
+            match self.lookup_entry_for_revname(
+                contents,
+                name,
+                parent,
+                parent_offset,
+            ) {
                 Some(entry) => {
                     let tmp;
                     (parent, name, tmp) = entry;
@@ -196,6 +201,7 @@ impl NameCompressor {
         contents: &[u8],
         name: &'n [u8],
         parent: u8,
+        parent_offset: Option<u16>,
     ) -> Option<(u8, &'n [u8], u16)> {
         // SAFETY: 'name' is a sequence of labels.
         let mut name_labels = unsafe { LabelIter::new_unchecked(name) };
@@ -216,6 +222,13 @@ impl NameCompressor {
             debug_assert_ne!(len, 0);
             let mut entry = contents.get(pos..pos + len)
                 .unwrap_or_else(|| panic!("'contents' did not correspond to the name compressor state"));
+
+            // An entry with a parent ends in a compression pointer to some
+            // suffix of that parent. It can only be used if that is the
+            // suffix the name has been matched against so far.
+            if !Self::points_to(contents, pos + len, parent_offset) {
+                continue;
+            }
 
             // Find a shared suffix between the entry and the name.
             //
@@ -299,7 +312,13 @@ impl NameCompressor {
 
         // Repeatedly look up entries that could be used for compression.
         while !name.is_empty() {
-            match self.lookup_entry_for_name(contents, name, parent, hash) {
+            match self.lookup_entry_for_name(
+                contents,
+                name,
+                parent,
+                parent_offset,
+                hash,
+            ) {
                 Some(entry) => {
                     let tmp;
                     (parent, name, hash, tmp) = entry;
@@ -357,6 +376,7 @@ impl NameCompressor {
         contents: &[u8],
         name: &'n [u8],
         parent: u8,
+        parent_offset: Option<u16>,
         hash: u16,
     ) -> Option<(u8, &'n [u8], u16, u16)> {
         // SAFETY: 'name' is a non-empty sequence of labels.
@@ -375,6 +395,13 @@ impl NameCompressor {
             debug_assert_ne!(len, 0);
             let entry = contents.get(pos..pos + len)
                 .unwrap_or_else(|| panic!("'contents' did not correspond to the name compressor state"));
+
+            // An entry with a parent ends in a compression pointer to some
+            // suffix of that parent. It can only be used if that is the
+            // suffix the name has been matched against so far.
+            if !Self::points_to(contents, pos + len, parent_offset) {
+                continue;
+            }
 
             // Find a shared suffix between the entry and the name.
             //
@@ -456,6 +483,27 @@ impl NameCompressor {
         }
 
         None
+    }
+
+    /// Check what follows an entry in the message.
+    ///
+    /// If `parent_offset` is [`Some`], the entry is being considered as the
+    /// child of a parent entry, of which the suffix at `parent_offset` has
+    /// been matched. The entry must then be followed, at `end`, by a
+    /// compression pointer to exactly that offset.
+    fn points_to(
+        contents: &[u8],
+        end: usize,
+        parent_offset: Option<u16>,
+    ) -> bool {
+        match parent_offset {
+            Some(offset) => {
+                // Add the top bits and the 12-byte offset for the header.
+                let pointer = (offset + 0xC00C).to_be_bytes();
+                contents.get(end..end + 2) == Some(&pointer[..])
+            }
+            None => true,
+        }
     }
 
     /// Find the last label of a domain name.
